@@ -15,8 +15,10 @@ def tablesOf (d : Nat) : Tables :=
   { base := m.base, c6 := m.c6, c7 := m.c7, c8 := m.c8 }
 
 /-- **Token tables.**  The maps `build_mapping()` constructs from the current
-    basic/tokens.c (all 6 dialects × 4 maps × 256 bytes) are the published ones. -/
-theorem C03_tables : tokTable = docTable := by decide +kernel
+    basic/tokens.c (all 6 dialects × 4 maps × 256 bytes) are the published ones.
+    (Proof script only: compared as nested lists, `tables_eq_of_toL`, because the
+    kernel takes minutes to evaluate `DecidableEq (Array _)` on these literals.) -/
+theorem C03_tables : tokTable = docTable := tables_eq_of_toL _ _ (by decide +kernel)
 
 /-- **Dialect names.**  The ten documented names select the documented dialect. -/
 theorem C03_dialect_names :
@@ -77,10 +79,10 @@ example : ProgramWF (tablesOf 0) false 65280
   subst hl
   refine ⟨by decide, by decide, ?_⟩
   simp only [ItemsWF, ItemWF]
-  refine ⟨⟨by decide, by decide, by decide, ⟨_, by decide⟩⟩, by simp, by simp, ?_⟩
+  refine ⟨⟨by decide, by decide, by decide, [80, 82, 73, 78, 84], by decide +kernel⟩, by simp, by simp, ?_⟩
   refine ⟨by decide, by simp, by simp, ?_⟩
-  refine ⟨⟨by decide, by decide, by decide, by decide⟩, by simp, by simp, ?_⟩
-  refine ⟨⟨by decide, by decide, by decide, ⟨_, by decide⟩⟩, by simp, by simp, ?_⟩
-  exact ⟨⟨by decide, by decide⟩, by simp⟩
+  refine ⟨⟨by decide, by decide, by decide, by decide +kernel⟩, by simp, by simp, ?_⟩
+  refine ⟨⟨by decide, by decide, by decide, [71, 79, 84, 79], by decide +kernel⟩, by simp, by simp, ?_⟩
+  exact ⟨⟨by decide, by decide +kernel⟩, by simp⟩
 
 end Beeb.Props.C03
